@@ -58,6 +58,26 @@ HighLevel == E.op = "write"
 (* C17: the observed flag after the event must be the modelled one          *)
 FlagClause(flag) == IF E.hc = flag THEN {} ELSE {"C17.FlagDiscipline"}
 
+(* C17: what the specification of a file must not contain inside the high-compatibility mode *)
+HcNameOk(n) == n # << >> /\ \A i \in DOMAIN n : n[i] \in (65..90) \cup (48..57) \cup {45, 95}
+CanonBreach(fid) ==
+  LET f == CHOOSE x \in { cfil[i] : i \in DOMAIN cfil } : x.fid = fid IN
+     ~HcNameOk(f.setid)
+  \/ (\E i \in DOMAIN clf : (clf[i].fid = fid /\ ~HcNameOk(clf[i].fh_id)))
+  \/ \E i \in DOMAIN cobj : (cobj[i].fid = fid /\ (~HcNameOk(cobj[i].name)
+                                 \/ (\E a \in DOMAIN cobj[i].attrs : ~cobj[i].attrs[a].enum_ok)))
+AbsI(x) == IF x < 0 THEN 0 - x ELSE x
+ClearlyNonUniform(vals) ==      \* integer index values whose consecutive differences are more than 10 % apart
+  LET v == [k \in DOMAIN vals |-> LimToInt(vals[k])]
+      d == [k \in 1..(Len(v) - 1) |-> v[k + 1] - v[k]]
+  IN Len(v) >= 3 /\ \E a, b \in DOMAIN d : d[a] # d[b] /\ 10 * AbsI(d[a] - d[b]) > AbsI(d[b])
+FrameIndexed(oid) == \E i \in DOMAIN cobj : cobj[i].oid = oid /\ \E a \in DOMAIN cobj[i].attrs :
+                        cobj[i].attrs[a].label = lINDEXTYPE /\ cobj[i].attrs[a].has_val
+DataBreach(e) ==
+     (\E i \in DOMAIN e.frames : \E c \in DOMAIN e.frames[i].chans : e.frames[i].chans[c].srcsigned)
+  \/ (\E i \in DOMAIN e.frames : e.frames[i].has_rows /\ e.frames[i].index.ok /\ FrameIndexed(e.frames[i].oid)
+                                   /\ ClearlyNonUniform(e.frames[i].index.vals))
+
 (* ----------------------- API events that build Canon --------------------- *)
 NewFile ==
   /\ ph = "ev" /\ ei <= NEvents /\ E.op = "new_file"
@@ -100,7 +120,11 @@ AddObject ==
           /\ rej' = rej
      ELSE /\ cobj' = cobj /\ rej' = rej \cup {E.fid}
   /\ cfil' = NoteHc(cfil, E.fid)
-  /\ verdict' = verdict \cup Tag(FlagClause(hcm.flag), ei)
+  /\ verdict' = verdict \cup Tag(FlagClause(hcm.flag)
+        \* C17: inside the mode every breach raises; outside it the same input is accepted (with a warning)
+        \cup (IF hcm.flag /\ E.outcome = "ok" /\ (~HcNameOk(E.name) \/ \E a \in DOMAIN E.attrs : ~E.attrs[a].enum_ok)
+              THEN {"C17.BreachAccepted"} ELSE {})
+        \cup (IF ~hcm.flag /\ E.outcome = "raised" /\ E.soft_only THEN {"C17.AcceptedOutside"} ELSE {}), ei)
   /\ cnt' = [cnt EXCEPT !.events = @ + 1, !.rejected = @ + (IF E.outcome = "ok" THEN 0 ELSE 1)]
   /\ ei' = ei + 1
   /\ projs' = IF E.outcome = "ok" /\ E.proc \in DOMAIN projs
@@ -110,20 +134,22 @@ AddObject ==
 SetAttrIn(c, e) ==
   IF e.part = "origin_reference" THEN [c EXCEPT !.origin = e.origin]
   ELSE IF e.part = "name" THEN [c EXCEPT !.name = e.name]
-  ELSE IF e.part = "dataset_name" THEN c
+  ELSE IF e.part \in {"dataset_name", "cast_dtype"} THEN c
   ELSE LET S == { i \in DOMAIN c.attrs : c.attrs[i].label = e.label } IN
     IF S = {}
     THEN [c EXCEPT !.attrs = Append(@, IF e.part = "value"
-             THEN [label |-> e.label, has_val |-> TRUE, val |-> e.val, has_units |-> FALSE, units |-> << >>, judge |-> e.judge, enum_ok |-> TRUE]
+             THEN [label |-> e.label, has_val |-> TRUE, val |-> e.val, has_units |-> FALSE, units |-> << >>, judge |-> e.judge, enum_ok |-> e.enum_ok]
              ELSE [label |-> e.label, has_val |-> FALSE, val |-> << >>, has_units |-> TRUE, units |-> e.units, judge |-> TRUE, enum_ok |-> TRUE])]
     ELSE LET i == CHOOSE x \in S : TRUE IN
-      IF e.part = "value" THEN [c EXCEPT !.attrs[i].has_val = TRUE, !.attrs[i].val = e.val, !.attrs[i].judge = e.judge]
+      IF e.part = "value" THEN [c EXCEPT !.attrs[i].has_val = TRUE, !.attrs[i].val = e.val, !.attrs[i].judge = e.judge, !.attrs[i].enum_ok = e.enum_ok]
       ELSE [c EXCEPT !.attrs[i].has_units = TRUE, !.attrs[i].units = e.units]
 
 SetAttr ==
   /\ ph = "ev" /\ ei <= NEvents /\ E.op = "set"
   /\ cobj' = IF E.outcome = "ok" THEN [i \in DOMAIN cobj |-> IF cobj[i].oid = E.oid THEN SetAttrIn(cobj[i], E) ELSE cobj[i]] ELSE cobj
-  /\ verdict' = verdict \cup Tag(FlagClause(hcm.flag), ei)
+  /\ verdict' = verdict \cup Tag(FlagClause(hcm.flag)
+        \cup (IF hcm.flag /\ E.outcome = "ok" /\ (~E.enum_ok \/ (E.part = "name" /\ ~HcNameOk(E.name))) THEN {"C17.BreachAccepted"} ELSE {})
+        \cup (IF ~hcm.flag /\ E.outcome = "raised" /\ E.soft_only THEN {"C17.AcceptedOutside"} ELSE {}), ei)
   /\ cnt' = [cnt EXCEPT !.events = @ + 1]
   /\ ei' = ei + 1
   /\ UNCHANGED << tid, ph, rd, nrec, bnd, dec, cfil, clf, cnf, rej, hcm, seen, projs, failedw >>
@@ -213,26 +239,6 @@ AttrEvent ==
   /\ UNCHANGED << tid, ph, rd, nrec, bnd, dec, cfil, clf, cobj, cnf, rej, hcm, seen, projs, failedw >>
 
 (* ----------------------- writes ------------------------------------------ *)
-(* C17: what the specification of a file must not contain inside the high-compatibility mode *)
-HcNameOk(n) == n # << >> /\ \A i \in DOMAIN n : n[i] \in (65..90) \cup (48..57) \cup {45, 95}
-CanonBreach(fid) ==
-  LET f == CHOOSE x \in { cfil[i] : i \in DOMAIN cfil } : x.fid = fid IN
-     ~HcNameOk(f.setid)
-  \/ (\E i \in DOMAIN clf : (clf[i].fid = fid /\ ~HcNameOk(clf[i].fh_id)))
-  \/ \E i \in DOMAIN cobj : (cobj[i].fid = fid /\ (~HcNameOk(cobj[i].name)
-                                 \/ (\E a \in DOMAIN cobj[i].attrs : ~cobj[i].attrs[a].enum_ok)))
-AbsI(x) == IF x < 0 THEN 0 - x ELSE x
-ClearlyNonUniform(vals) ==      \* integer index values whose consecutive differences are more than 10 % apart
-  LET v == [k \in DOMAIN vals |-> LimToInt(vals[k])]
-      d == [k \in 1..(Len(v) - 1) |-> v[k + 1] - v[k]]
-  IN Len(v) >= 3 /\ \E a, b \in DOMAIN d : d[a] # d[b] /\ 10 * AbsI(d[a] - d[b]) > AbsI(d[b])
-FrameIndexed(oid) == \E i \in DOMAIN cobj : cobj[i].oid = oid /\ \E a \in DOMAIN cobj[i].attrs :
-                        cobj[i].attrs[a].label = lINDEXTYPE /\ cobj[i].attrs[a].has_val
-DataBreach(e) ==
-     (\E i \in DOMAIN e.frames : \E c \in DOMAIN e.frames[i].chans : e.frames[i].chans[c].srcsigned)
-  \/ (\E i \in DOMAIN e.frames : e.frames[i].has_rows /\ e.frames[i].index.ok /\ FrameIndexed(e.frames[i].oid)
-                                   /\ ClearlyNonUniform(e.frames[i].index.vals))
-
 LowValid(e) == e.vrl % 2 = 0 /\ e.vrl >= 20 /\ e.vrl <= 16384 /\ (e.out_chunk = 0 \/ e.out_chunk >= e.vrl)
                /\ \A i \in DOMAIN e.recs : e.recs[i].type \in 0..255
 
@@ -330,7 +336,7 @@ CheckObjects ==          \* C05 metadata, C09 headers, C18 / C20 inventories
   /\ ph = "L2"
   /\ LET rgs == Rgs  lfs == MyLfs  objs == MyObjs  anyRej == E.fid \in rej IN
      verdict' = verdict \cup Tag(
-          HeaderClauses(dec, rgs, lfs)
+          HeaderClauses(dec, rgs, lfs, cobj)
      \cup UNION { ObjectClauses(dec, rgs, lfs, cobj, objs[i], anyRej) : i \in DOMAIN objs }
      \cup InventoryClauses(dec, rgs, lfs, cobj, anyRej), ei)
   /\ cnt' = [cnt EXCEPT !.objs = @ + Len(MyObjs)]
